@@ -16,6 +16,7 @@ static struct cmd cmds[] = {
   {"c09", cmd_c09},
   {"c13", cmd_c13},
   {"c07", cmd_c07},
+  {"c06", cmd_c06},
   {NULL, NULL}
 };
 int main(int argc, char **argv) {
